@@ -123,9 +123,49 @@ fn run_random(n: u64, seed: u64, out: &str) -> i32 {
     0
 }
 
+/// direct calls of the two decoders (C08 observes them too) with dimensions a bitmap event can carry but whose
+/// image `BitmapEvent::decompress` could not allocate here (both dimensions large): small output buffers, short
+/// data.  Totality: a result, never a panic; success only when the buffer holds width x height pixels.
+fn run_direct(out: &str) -> i32 {
+    let dims: [u32; 12] = [0, 1, 2, 255, 16383, 16384, 16385, 32767, 32768, 46341, 65534, 65535];
+    let datas: [&[u8]; 6] = [&[], &[0x10], &[0x10, 0x10, 0x00], &[0x10, 0xf1, 1, 2, 3, 4, 5, 6, 7, 8, 9, 10, 11, 12, 13, 14, 15], &[0x00, 0x00], &[0xf0, 0xff, 0xff, 0x60, 0x1f]];
+    let lens: [usize; 5] = [0, 1, 4, 64, 4096];
+    let mut bad: Vec<Value> = vec![];
+    let (mut n, mut ok, mut err, mut nbad) = (0u64, 0u64, 0u64, 0u64);
+    for &w in dims.iter() { for &h in dims.iter() { for d in datas.iter() { for &l in lens.iter() { for which in 0..2 {
+        // rle_16_decompress has no guard of its own: BitmapEvent::decompress always hands it width x height x 2 elements,
+        // so only such calls are within the property (an undersized buffer there is the caller's fault, not a bitmap event)
+        if which == 1 && (l as u64) < (w as u64) * (h as u64) * 2 { continue; }
+        let data = d.to_vec();
+        let base = alloc_window_start();
+        let o = if which == 0 {
+            guarded(move || { let mut b = vec![0u8; l]; rdp::codec::rle::rle_32_decompress(&data, w, h, &mut b) })
+        } else {
+            guarded(move || { let mut b = vec![0u16; l]; rdp::codec::rle::rle_16_decompress(&data, w as usize, h as usize, &mut b) })
+        };
+        let (peak, _) = alloc_window_end(base);
+        n += 1;
+        let (res, ek) = match o {
+            Outcome::Done(Ok(())) => { ok += 1; ("ok", String::new()) }
+            Outcome::Done(Err(e)) => { err += 1; let r: rdp::model::error::RdpResult<()> = Err(e); let (_, k) = classify(&r); ("err", k) }
+            Outcome::Panic(m) => ("panic", m),
+        };
+        let room = (l as u64) >= (w as u64) * (h as u64) * if which == 0 { 4 } else { 1 };
+        let fine = res != "panic" && peak <= 4 * l * 2 + d.len() + 4096 && !(which == 0 && res == "ok" && d.len() > 0 && !room);
+        if !fine {
+            nbad += 1;
+            if bad.len() < 6 { bad.push(json!({"fn": if which == 0 { "rle_32_decompress" } else { "rle_16_decompress" }, "w": w, "h": h, "data": d.to_vec(), "outlen": l, "res": res, "ek": ek, "peak": peak})); }
+        }
+    } } } } }
+    let mut o = std::fs::File::create(out).unwrap();
+    writeln!(o, "{}", json!({"evaluations": n, "ok": ok, "err": err, "rule_violations": nbad, "offenders": bad})).unwrap();
+    0
+}
+
 pub fn run(args: &[String]) -> i32 {
     let get = |k: &str| args.iter().position(|a| a == k).and_then(|i| args.get(i + 1).cloned());
     let out = get("--out").unwrap_or_default();
+    if args.iter().any(|a| a == "--direct") { return run_direct(&out); }
     if let Some(c) = get("--cases") { return run_cases(&c, &out); }
     if let Some(l) = get("--exhaustive") { return run_exhaustive(l.parse().unwrap_or(1), get("--maxdim").and_then(|s| s.parse().ok()).unwrap_or(3), &out); }
     if let Some(n) = get("--random") { return run_random(n.parse().unwrap_or(1000), get("--seed").and_then(|s| s.parse().ok()).unwrap_or(1), &out); }
